@@ -1,5 +1,5 @@
 (* C08 property theorems only. *)
-From V Require Import lib.Verdict C08.Model C08.Proofs C08.Proofs2 C08.Proofs3 C08.Proofs4.
+From V Require Import lib.Verdict C08.Model C08.Proofs C08.Proofs2 C08.Proofs3 C08.Proofs4 C08.Proofs5.
 
 (* HEADLINE (partial: relative to the single-value matchers).  For every option set (HTTP or TCP
    chain, authenticated / filter-state principals, trust domains), every list of policies (any
@@ -18,6 +18,30 @@ Theorem C08_decision_preserved_partial : forall o ps r,
   eval_filters (compile_filters o ps) r = decision_view (tcp o) ps r.
 Proof. exact compile_preserves_decision. Qed.
 Print Assumptions C08_decision_preserved_partial.
+
+(* The same statement with the weaker premise [leaves_rest]: only uri_template paths, the three
+   regex-shaped identity matchers (namespace - refuted, principal, serviceAccount) and the JWT
+   matchers are still assumed; ports, CIDRs, hosts, methods, headers, plain paths and SNI in all
+   four value forms (exact, prefix, suffix, presence) are proved (C08_leaves_discharged). *)
+Theorem C08_decision_preserved_weaker_premise_partial : forall o ps r,
+  leaves_rest (tcp o) (negb (use_filter_state o)) r ->
+  alias_free_policies (trust_domains o) ps ->
+  eval_filters (compile_filters o ps) r = decision_view (tcp o) ps r.
+Proof. exact compile_preserves_decision_rest. Qed.
+Print Assumptions C08_decision_preserved_weaker_premise_partial.
+
+Theorem C08_leaves_discharged : forall tcp ua r, leaves_rest tcp ua r -> leaves_ok tcp ua r.
+Proof. exact leaves_rest_ok. Qed.
+Print Assumptions C08_leaves_discharged.
+
+(* HeaderMatcher / HostMatcher and StringMatcher mean the documented value forms, for every
+   value and every attribute string: "*" presence (".+" = non-empty for paths / SNI), "*x"
+   suffix, "x*" prefix, otherwise exact; hosts case-insensitively *)
+Theorem C08_wildcard_forms : forall v,
+  (forall ic o, eval_hmatch (header_matcher_ic ic v) o = opt_matches (form_matches ic v) o) /\
+  (forall x, eval_smatch (string_matcher v) x = form_matches_nonempty v x).
+Proof. intros v. split; [intros; apply header_matcher_opt|apply string_matcher_sem]. Qed.
+Print Assumptions C08_wildcard_forms.
 
 (* CONSERVATIVE fallback, proved outright for every chain (HTTP or TCP), policy list and request:
    reading the policies "as expressible on the chain" (ALLOW rules with an inexpressible value
